@@ -73,6 +73,8 @@ pub async fn save_env_state(target: &TargetMetadata, env_state: TargetEnvState) 
     task::spawn_blocking(move || {
         let file = std::fs::File::create(&file_path)
             .with_context(|| format!("Failed to create checksums file {}", file_path.display()))?;
+        #[cfg(zinoma_verif)]
+        let file = super::verif_crash::CrashingWriter::new(file);
         bincode::serialize_into(file, &env_state)
             .with_context(|| format!("Failed to serialize checksums for {}", target_id))
     })
